@@ -12,8 +12,8 @@ CLAIMED = {
    note="Assumed: modifies clauses marked assumed (the merge helpers do not change the visible contents of the input schemas); gqlparser ForName model; AST non-nil invariants.",
    ref="DESIGN.md §5 C03", technique="contract-based deductive verification (set-shaped postconditions over maps and field lists, z3+cvc5)"),
  'C05': dict(
-   text="Deductive proof of conflict => error as postconditions of the pairwise merge, for arbitrary schemas: a name used for different kinds (mergeTypes), the same root field declared by both sides other than the Relay entry point (mergeRootObjects), with the node-entry-point definition taken from the property statement (isNodeField). The postcondition 'a shared field with different types is rejected' is stated on mergeCustomObjectFields and FAILS: recorded as an open known finding (B15). Node-implementation mismatch, union member differences, the 'neither identical nor disjoint' rule and order independence of the fold (B16, see DESIGN) are not decided.",
-   note="Assumed: (*ast.Type).String / Name as ghost functions; modifies clauses marked assumed; panics inside gqlparser are out of scope.",
+   text="Deductive proof of conflict => error as postconditions of the pairwise merge, for arbitrary schemas: a name used for different kinds (mergeTypes), the same root field declared by both sides other than the Relay entry point (mergeRootObjects), with the node-entry-point definition taken from the property statement (isNodeField). 'A shared field with a different type or different arguments (name, type, default) is rejected' is a postcondition of mergeCustomObjectFields, proved with loop invariants after the defect it exposed (B15) was repaired; isSameFieldSignature is proved equal to the signature predicate of the contract. Node-implementation mismatch, union member differences, the 'neither identical nor disjoint' rule and order independence of the fold (B16, see DESIGN) are not decided.",
+   note="Assumed: (*ast.Type).String / Name and (*ast.Value).String as ghost functions; field names of one type are unique (gqlparser's schema validation); modifies clauses marked assumed; panics inside gqlparser are out of scope.",
    ref="DESIGN.md §5 C05", technique="contract-based deductive verification (error-path postconditions with loop invariants over map iteration, z3+cvc5)"),
  'C04': dict(
    text="Deductive proof of the functional contracts of the routing table: TypeURLMap.Set/Get/SetTypeIsImplementsNode/GetTypeIsImplementsNode (exact effect plus frame over all other (type, field) pairs and flags), isNodeField against the property's definition of the Relay entry point (name node, one argument id: ID!, nullable Node), SetFromSchema (every non-builtin, non-id, non-entry-point field of every non-builtin object of the schema is routed to that service; types not declared as objects by the schema are untouched; every route is either unchanged or now points to this service; IsImplementsNode iff some processed schema lists Node) and the fold in ExtendMergerFunc.Merge (every declared field of every input has a route; every route names some input's URL), for arbitrary schemas and any number of services. 'Exactly the one service' for root fields additionally needs C05's overlap rejection (not claimed).",
